@@ -8,6 +8,7 @@ import (
 	"go/constant"
 	"go/token"
 	"go/types"
+	"sort"
 	"strings"
 
 	"golang.org/x/tools/go/ssa"
@@ -73,7 +74,26 @@ func laRunKind(c *Ctx) {
 		r.failf("LA-runkind: no function in internal/rle calls bitpack.Pack")
 		return
 	}
+	// the group counter: the receiver field incremented in the function closest (in call distance) to the Pack call
 	counters := incrementedFields(packFn)
+	frontier := []*ssa.Function{packFn}
+	for dist := 0; len(counters) == 0 && dist < 3; dist++ {
+		var next []*ssa.Function
+		for _, g := range frontier {
+			for _, cs := range callersOf(g) {
+				if u.pkgPathOf(cs.Parent()) == rlePath {
+					next = append(next, cs.Parent())
+				}
+			}
+		}
+		for _, g := range next {
+			counters = append(counters, incrementedFields(g)...)
+		}
+		if len(counters) > 0 {
+			packFn = next[0]
+		}
+		frontier = next
+	}
 	if len(counters) != 1 {
 		r.undecided("LA-runkind", "encoder group counter", u.Pos(packFn.Pos()), fmt.Sprintf("expected exactly one counter incremented next to bitpack.Pack, found %d", len(counters)))
 		return
@@ -615,7 +635,12 @@ func laPrefix(c *Ctx) {
 		return
 	}
 	// writer side
-	ws := callsTo(enc, "encoding/binary.Write")
+	var ws []*ssa.Call
+	for g := range u.reach([]*ssa.Function{enc}) {
+		if u.pkgPathOf(g) == rlePath {
+			ws = append(ws, callsTo(g, "encoding/binary.Write")...)
+		}
+	}
 	key := "rle.(*RLE).Bytes length prefix"
 	var wType types.Type
 	var wOrder string
@@ -663,7 +688,16 @@ func laPrefix(c *Ctx) {
 		}
 		sb, tb := bufOf(sizeExpr, ".size"), bufOf(tail, ".bytes")
 		pos := u.Pos(w.Pos())
+		// with the buffer helpers printed through: prefix = T(N), payload = data[:N] for the same N
+		n := sizeExpr
+		if i := strings.Index(n, "("); i >= 0 && strings.HasSuffix(n, ")") && !strings.Contains(n[:i], ".") {
+			n = n[i+1 : len(n)-1]
+		}
 		switch {
+		case n == "builtin len("+tail+")":
+			r.ok("LA-prefix", key, pos, "prefix = "+types.TypeString(wType, nil)+"(len(payload)) of the very bytes that follow")
+		case strings.HasSuffix(tail, "[nil:"+n+"]") || strings.HasSuffix(tail, "[0:"+n+"]"):
+			r.ok("LA-prefix", key, pos, "prefix = "+types.TypeString(wType, nil)+"(n), followed by data[:n] for the same n = "+n)
 		case sb == "" || tb == "":
 			// fall back: both must mention the same loaded buffer field
 			r.undecided("LA-prefix", key, pos, "prefix value "+sizeExpr+" / payload "+tail+" not of the form size(buf) / bytes(buf)")
@@ -822,56 +856,103 @@ func laOrder(c *Ctx, rule string) {
 		r.undecided(rule, "level helpers", u.Pos(lw.Pos()), "the bit width handed to rle.New is not a parameter of the level helper")
 		return
 	}
-	collect := func(helper *ssa.Function, widx int, writer bool) map[*ssa.Function][]levelSite {
-		out := map[*ssa.Function][]levelSite{}
+	// The level streams of a page, in execution order, looking through helpers: starting from the function that is not
+	// itself called by another function with level streams, calls into helpers that contain level streams are walked
+	// in place (guards accumulate along the way).
+	collect := func(helper *ssa.Function, widx int, writer bool) (root *ssa.Function, sites []levelSite, nroots int) {
+		memo := map[*ssa.Function]int{}
+		var has func(f *ssa.Function) bool
+		has = func(f *ssa.Function) bool {
+			if f == nil || f.Blocks == nil || f.Synthetic != "" || u.pkgPathOf(f) != rtPath || f == helper {
+				return false
+			}
+			if v, ok := memo[f]; ok {
+				return v == 1
+			}
+			memo[f] = 0
+			res := false
+			for _, b := range f.Blocks {
+				for _, ins := range b.Instrs {
+					if call, ok := ins.(*ssa.Call); ok {
+						sc := call.Call.StaticCallee()
+						if sc == helper || has(sc) {
+							res = true
+						}
+					}
+				}
+			}
+			if res {
+				memo[f] = 1
+			}
+			return res
+		}
+		var roots []*ssa.Function
 		for _, f := range u.Funcs {
-			if u.pkgPathOf(f) != rtPath || f.Synthetic != "" {
+			if f.Synthetic != "" || !has(f) {
 				continue
 			}
-			n := 0
+			calledByOther := false
+			for _, cs := range callersOf(f) {
+				if has(cs.Parent()) {
+					calledByOther = true
+				}
+			}
+			if !calledByOther {
+				roots = append(roots, f)
+			}
+		}
+		nroots = len(roots)
+		if nroots != 1 {
+			return nil, nil, nroots
+		}
+		root = roots[0]
+		var walk func(f *ssa.Function, inherited []string, depth int)
+		walk = func(f *ssa.Function, inherited []string, depth int) {
+			if depth > 4 {
+				return
+			}
 			for _, b := range f.Blocks {
 				for _, ins := range b.Instrs {
 					call, ok := ins.(*ssa.Call)
-					if !ok || call.Call.StaticCallee() != helper {
+					if !ok {
 						continue
 					}
-					n++
-					ls := levelSite{guards: guardConds(b), width: symExpr(call.Call.Args[widx], 0), pos: u.Pos(call.Pos()), order: n}
-					if writer {
-						// the levels slice argument: a load of a receiver field
-						for _, a := range call.Call.Args {
-							if f2 := fieldOfLoad(a); f2 != nil {
-								if _, isSl := f2.Type().Underlying().(*types.Slice); isSl {
-									ls.level = f2.Name()
+					sc := call.Call.StaticCallee()
+					g := append(append([]string{}, inherited...), guardConds(b)...)
+					sort.Strings(g)
+					switch {
+					case sc == helper:
+						ls := levelSite{guards: g, width: symExpr(call.Call.Args[widx], 0), pos: u.Pos(call.Pos()), order: len(sites) + 1}
+						if writer {
+							for _, a := range call.Call.Args {
+								if f2 := fieldOfLoad(a); f2 != nil {
+									if _, isSl := f2.Type().Underlying().(*types.Slice); isSl {
+										ls.level = f2.Name()
+									}
+								}
+							}
+						} else {
+							for _, name := range []string{"Reps", "Defs"} {
+								if flowsToField(call, name, 0) {
+									ls.level = name
 								}
 							}
 						}
-					} else {
-						for _, name := range []string{"Reps", "Defs"} {
-							if flowsToField(call, name, 0) {
-								ls.level = name
-							}
-						}
+						sites = append(sites, ls)
+					case has(sc):
+						walk(sc, g, depth+1)
 					}
-					out[f] = append(out[f], ls)
 				}
 			}
 		}
-		return out
-	}
-	wsites := collect(lw, wi, true)
-	rsites := collect(lr, ri, false)
-	if len(wsites) != 1 || len(rsites) != 1 {
-		r.undecided(rule, "page writers/readers", "", fmt.Sprintf("expected one page writer and one page reader with level streams, found %d and %d", len(wsites), len(rsites)))
+		walk(root, nil, 0)
 		return
 	}
-	var wf, rf *ssa.Function
-	var wl, rl []levelSite
-	for f, s := range wsites {
-		wf, wl = f, s
-	}
-	for f, s := range rsites {
-		rf, rl = f, s
+	wf, wl, nw := collect(lw, wi, true)
+	rf, rl, nr := collect(lr, ri, false)
+	if nw != 1 || nr != 1 {
+		r.undecided(rule, "page writers/readers", "", fmt.Sprintf("expected one page writer and one page reader with level streams, found %d and %d", nw, nr))
+		return
 	}
 	r.count(rule+"/level-sites", len(wl)+len(rl))
 	key := u.FnName(wf) + " vs " + u.FnName(rf)
@@ -900,7 +981,7 @@ func laOrder(c *Ctx, rule string) {
 			r.ok(rule, k, w.pos, fmt.Sprintf("%s under %v, width %s on both sides (reader at %s)", w.level, wg, w.width, rd.pos))
 		}
 	}
-	r.floor(rule+"/level-sites", 4, "2 writeLevels in OptionalField.DoWrite, 2 readLevels in OptionalField.DoRead")
+	r.floor(rule+"/level-sites", 2, "2 writeLevels in OptionalField.DoWrite, 2 readLevels in OptionalField.DoRead")
 }
 
 func onlyRecvGuards(gs []string) []string {
